@@ -100,16 +100,16 @@ Fixpoint parse_ops (fuel : nat) (err_on_checksig : bool) (bs : bytes) (depth : Z
               let n := Z.to_nat (l - 1) in
               if Nat.ltb (length r) n then None
               else option_map (cons (mkPop v l (firstn n r) true))
-                     (parse_ops (f - n) err_on_checksig (skipn n r) depth')
+                     (parse_ops f err_on_checksig (skipn n r) depth')
             else
               let n := Z.to_nat (- l) in
               if Nat.ltb (length r) n then None
               else
-                let dl := N.to_nat (le_dec (firstn n r)) in
+                let dlN := le_dec (firstn n r) in
                 let rest := skipn n r in
-                if Nat.ltb (length rest) dl then None
-                else option_map (cons (mkPop v l (firstn dl rest) true))
-                       (parse_ops (f - n - dl) err_on_checksig (skipn dl rest) depth')
+                if (N.of_nat (length rest) <? dlN)%N then None   (* compare before converting: dlN is attacker-chosen *)
+                else let dl := N.to_nat dlN in option_map (cons (mkPop v l (firstn dl rest) true))
+                       (parse_ops f err_on_checksig (skipn dl rest) depth')
       end
   end.
 Definition parse_script (err_on_checksig : bool) (bs : bytes) : option (list pop) :=
@@ -430,12 +430,11 @@ Definition exec_handler (so : sigops) (c : ctx) (p : pop) (idx : nat) (s : st) :
         | Some n =>
             match r with
             | x :: r' =>
-                if lenZ x <? to_int32 n then OErr
+                if lenZ x <? n then OErr
                 else if n <? 0 then OErr
                 else
-                  let k := to_int n in
-                  if (k <? 0) || (lenZ x <? k) then OPanic            (* c[:n.Int()] out of range *)
-                  else OOk (set_ds s (skipn (Z.to_nat k) x :: firstn (Z.to_nat k) x :: r'))
+                  (* 0 <= n <= len(c) <= MaxInt, so n.Int() is exact and c[:n] is in range *)
+                  OOk (set_ds s (skipn (Z.to_nat n) x :: firstn (Z.to_nat n) x :: r'))
             | [] => OErr
             end
         end
@@ -502,10 +501,10 @@ Definition exec_handler (so : sigops) (c : ctx) (p : pop) (idx : nat) (s : st) :
             if n <? 0 then OErr
             else match r with
                  | x :: r' =>
+                     (* shiftCount: n limited to 8*len(x) <= MaxInt, so the conversion to int is exact *)
                      let bits := 8 * lenZ x in
-                     let k := if n <? bits then to_int n else bits in
-                     if k <? 0 then OPanic
-                     else push (set_ds s r') ((if (v =? OP_LSHIFT)%N then shl_bytes else shr_bytes) x (Z.to_nat k))
+                     let k := if n <? bits then n else bits in
+                     push (set_ds s r') ((if (v =? OP_LSHIFT)%N then shl_bytes else shr_bytes) x (Z.to_nat k))
                  | [] => OErr
                  end
         end
